@@ -47,7 +47,10 @@ def run(chk):
     chk.rule("R6", "each producer of Alias.uuid_map covers every key set that consumers index without a guard")
     chk.rule("R7", "Alias leaves the visible column sequence and the grouping sequence unchanged in all three siblings")
 
+    chk.rule("R8", "a SQL subquery (alias that becomes a subquery) names the columns visible at the marker first, so they keep their names")
+
     _clone_rule(chk, sym)
+    marker_names(chk, "R8", sym, sib)
 
     # ---- R1
     vm = repo.mod("tree.verbs")
@@ -196,3 +199,33 @@ def run(chk):
         chk.ob("R7", sib.cfgs[name].module, sib.cfgs[name].func, f"{name} Alias: SEL = {S.show(t['SEL']['nf'])}, PART = {S.show(t['PART']['nf'])}",
                t["SEL"]["nf"] == S.IN and t["PART"]["nf"] == S.PART,
                f"{name}: alias changes the visible / grouping columns ({S.show(t['SEL']['nf'])}, {S.show(t['PART']['nf'])})")  # fmt: skip
+
+
+def marker_names(chk, rule, sym, sib):
+    from .. import collide
+    from ..dispatch import Cond, Slicer
+
+    cfg = sib.cfgs["sql"]
+    items = Slicer(sym, cfg.module, cfg.subject, sym.cls("SubqueryMarker")).slice(cfg.func.body)
+    stmts = []
+
+    def rec(its):
+        for it in its:
+            if isinstance(it, Cond):
+                # statements inside the `isinstance(nd, SubqueryMarker)` branch
+                for st in it.node.body if hasattr(it.node, "body") else []:
+                    stmts.append(st)
+            else:
+                stmts.append(it)
+
+    rec(items)
+    from ..source import AnalysisError
+
+    try:
+        loop, ok, why = collide.marker_dedup_order(stmts)
+    except collide.Undecided as u:
+        raise AnalysisError(f"C16/{rule}: {u}") from u
+    chk.ob(rule, cfg.module, loop, "SubqueryMarker: name de-duplication visits visible columns first", ok,
+           f"the loop that resolves name collisions in a subquery gives the plain name to the first column it meets, and {why}: "
+           "with alias(keep_col_refs=True) a visible column is labelled `<name>_1` - exported names change and a later "
+           "mutate that overwrites <name> no longer replaces it")  # fmt: skip
